@@ -356,6 +356,24 @@ var c14ProcOps = []struct {
 	{"a render without data that reads a name", func() string {
 		return observe(textwire.EvaluateString("{{ title }}", nil))
 	}},
+	// one loaded Template (kept for the life of the process) rendered with different data
+	{"debug page of the kept template: integer + string on line 1", func() string {
+		return c14Respond(c14KeptTemplate(), "sum", map[string]any{"a": 1, "b": "x"})
+	}},
+	{"debug page of the kept template: string + integer on line 1", func() string {
+		return c14Respond(c14KeptTemplate(), "sum", map[string]any{"a": "x", "b": 1})
+	}},
+	{"debug page of the kept template: an undefined name on line 1", func() string {
+		return c14Respond(c14KeptTemplate(), "sum", map[string]any{"a": 1})
+	}},
+	{"list page of the kept template for Ann", func() string {
+		out, fe := c14KeptTemplate().String("list", map[string]any{"user": "Ann", "role": "admin"})
+		return fmt.Sprint("OUT:", out, "|", fe)
+	}},
+	{"list page of the kept template for Bob", func() string {
+		out, fe := c14KeptTemplate().String("list", map[string]any{"user": "Bob", "role": "visitor"})
+		return fmt.Sprint("OUT:", out, "|", fe)
+	}},
 	{"evaluate a file by relative path under site-b", func() string {
 		os.Chdir(c14ProcRoot)
 		os.Chdir("site-b")
@@ -364,6 +382,29 @@ var c14ProcOps = []struct {
 }
 
 var c14ProcRoot string
+
+var c14Kept *textwire.Template
+
+// c14KeptTemplate enters site-a, applies its configuration (debug on) and returns the Template of the first such call
+func c14KeptTemplate() *textwire.Template {
+	os.Chdir(c14ProcRoot)
+	os.Chdir("site-a")
+	textwire.VerifResetConfig()
+	t, err := textwire.NewTemplate(&config.Config{TemplateDir: "views", TemplateExt: ".tw", DebugMode: true})
+	if err != nil {
+		panic(err)
+	}
+	if c14Kept == nil {
+		c14Kept = t
+	}
+	return c14Kept
+}
+
+func c14Respond(t *textwire.Template, page string, data map[string]any) string {
+	rec := newRecorder()
+	err := t.Response(rec, page, data)
+	return fmt.Sprintf("body=%q err=%v", rec.body.String(), err)
+}
 
 // c14TreeAt makes dir the working directory and loads the tree found under its relative directory "views"
 func c14TreeAt(dir string) string {
@@ -394,7 +435,8 @@ func init() {
 		c14ProcRoot, _ = os.Getwd()
 		for _, site := range []string{"site-a", "site-b"} {
 			files := map[string]string{"views/index.tw": "@use(\"~main\")@insert(\"body\")index of " + site + " for {{ who }}@end", "views/layouts/main.tw": "<" + site + ">@reserve(\"body\")</" + site + ">",
-				"views/bad.tw": "line one of " + site + "\n{{ nothing.here }}"}
+				"views/bad.tw": "line one of " + site + "\n{{ nothing.here }}", "views/sum.tw": "{{ a + b }}",
+				"views/list.tw": "{{ [{name: user, id: 7}].join(\"; \") }}|{{ \"admin,editor\".contains(role) ? \"staff\" : \"guest\" }}|{{ [[user], [0]] }}|@each(n in [1, 2, 3]){{ true.then({pass: n, who: user}) }} @end"}
 			if site == "site-b" {
 				files["views/bad.tw"] = "\n\n" + files["views/bad.tw"]
 			}
